@@ -40,21 +40,21 @@ def run(ctx):
         prog, info = load_program(cfg, "e57")
         ctx.configs[cfg] = info
         ctx.cfg = cfg
-        pcw_rules.data_offset_provenance(ctx, prog, "R1")
-        pcw_rules.finalize_protocol(ctx, prog, "R2")
-        pcw_rules.accept_once(ctx, prog, "R3")
-        bounds_rules.validation_before_update(ctx, prog, "R3")
-        pcw_rules.packet_rules(ctx, prog, "R4", "R5", "R6")
-        pcw_rules.raw_reader_count(ctx, prog, "R7")
-        pcw_rules.pop_point_order(ctx, prog, "R7")
-        width_rules.width_formula(ctx, prog, "R9")
-        codec_rules.stored_form(ctx, prog, "R10")
-        codec_rules.add_bits_shape(ctx, prog, "R10")
-        codec_rules.extract_window(ctx, prog, "R10")
-        codec_rules.append_shape(ctx, prog, "R10")
-        page_rules.read_current_page_shape(ctx, prog, "R11")
+        ctx.call(pcw_rules.data_offset_provenance, prog, "R1")
+        ctx.call(pcw_rules.finalize_protocol, prog, "R2")
+        ctx.call(pcw_rules.accept_once, prog, "R3")
+        ctx.call(bounds_rules.validation_before_update, prog, "R3")
+        ctx.call(pcw_rules.packet_rules, prog, "R4", "R5", "R6")
+        ctx.call(pcw_rules.raw_reader_count, prog, "R7")
+        ctx.call(pcw_rules.pop_point_order, prog, "R7")
+        ctx.call(width_rules.width_formula, prog, "R9")
+        ctx.call(codec_rules.stored_form, prog, "R10")
+        ctx.call(codec_rules.add_bits_shape, prog, "R10")
+        ctx.call(codec_rules.extract_window, prog, "R10")
+        ctx.call(codec_rules.append_shape, prog, "R10")
+        ctx.call(page_rules.read_current_page_shape, prog, "R11")
         if cfg == "lib":
-            xml_rules.type_attributes(ctx, prog, "R12")
-        validation_rules.flag_value_pairs(ctx, prog, "R13")
+            ctx.call(xml_rules.type_attributes, prog, "R12")
+        ctx.call(validation_rules.flag_value_pairs, prog, "R13")
     ctx.cfg = None
-    witness.run(ctx, "R8", ["pcw_second_pointcloud", "pcw_blob_while_open", "pcw_image_while_open", "pcw_finalize_while_open"])
+    ctx.call(witness.run, "R8", ["pcw_second_pointcloud", "pcw_blob_while_open", "pcw_image_while_open", "pcw_finalize_while_open"])
